@@ -487,3 +487,53 @@ func (x *c11X) extractBatchGate() error {
 	c.Info("batch_gate", steps)
 	return nil
 }
+
+// extractKeySites: every call of SetAttestation / GetAttestation / DeleteAttestation's store access in the keeper
+// (Attest, TryAttestation, InitGenesis, …) must address the store with (X.GetChainReferenceId(), X.GetSkywayNonce(), hash)
+// where hash is X.ClaimHash() of the SAME claim X in the same function, and the attestation written is the one that holds
+// X (new: `Claim: anyClaim`; otherwise the attestation X was unpacked from).
+func (x *c11X) extractKeySites() error {
+	c := x.c
+	var sites []string
+	for _, f := range x.kfiles {
+		for _, d := range f.Decls {
+			fd, ok := d.(*ast.FuncDecl)
+			if !ok || fd.Body == nil || fd.Name.Name == "SetAttestation" || fd.Name.Name == "GetAttestation" {
+				continue
+			}
+			src := strings.Join(strings.Fields(c.Src(fd.Body)), " ")
+			for _, fn := range []string{"SetAttestation", "GetAttestation"} {
+				for _, ce := range Calls(fd.Body, fn) {
+					if len(ce.Args) < 4 {
+						return fmt.Errorf("%s: %s call with %d arguments", fd.Name.Name, fn, len(ce.Args))
+					}
+					g1, g2, h := c.Src(ce.Args[1]), c.Src(ce.Args[2]), c.Src(ce.Args[3])
+					if !strings.HasSuffix(g1, ".GetChainReferenceId()") || !strings.HasSuffix(g2, ".GetSkywayNonce()") {
+						return fmt.Errorf("%s: %s(%s, %s, %s): the store is not addressed by the claim's chain reference id and skyway nonce", fd.Name.Name, fn, g1, g2, h)
+					}
+					v := strings.TrimSuffix(g1, ".GetChainReferenceId()")
+					if strings.TrimSuffix(g2, ".GetSkywayNonce()") != v {
+						return fmt.Errorf("%s: %s: chain and nonce are taken from different claims (%s, %s)", fd.Name.Name, fn, g1, g2)
+					}
+					if !strings.Contains(src, h+", err := "+v+".ClaimHash()") {
+						return fmt.Errorf("%s: %s: `%s` is not %s.ClaimHash() of the same claim", fd.Name.Name, fn, h, v)
+					}
+					if fn == "SetAttestation" && len(ce.Args) == 5 && fd.Name.Name != "Attest" {
+						// the attestation written must be the one the claim was unpacked from
+						a := strings.TrimPrefix(c.Src(ce.Args[4]), "&")
+						if !strings.Contains(src, v+", err := k.UnpackAttestationClaim("+a+")") && !strings.Contains(src, v+", err := k.UnpackAttestationClaim(&"+a+")") {
+							return fmt.Errorf("%s: SetAttestation writes %s, which is not the attestation claim %s was unpacked from", fd.Name.Name, a, v)
+						}
+					}
+					sites = append(sites, fd.Name.Name+":"+fn)
+				}
+			}
+		}
+	}
+	sort.Strings(sites)
+	c.P("(* every keeper call site of SetAttestation / GetAttestation addresses the store with the chain, nonce and ClaimHash of ONE claim,")
+	c.P("   and (outside Attest) writes the attestation that claim was unpacked from *)")
+	c.P("Definition attestation_key_sites : list string := %s.", CoqStrList(sites))
+	c.Info("attestation_key_sites", sites)
+	return nil
+}
